@@ -101,7 +101,10 @@ class StorageTools:
     @staticmethod
     def writeProfileData(profile_name, name, val):
         logger.debug("writeProfileData(profile_name=%s, name=%s, val=[omitted])" % (profile_name, name))
-        path = os.path.join(StorageTools.getStorageForProfile(profile_name), name)
+        profile_dir = StorageTools.getStorageForProfile(profile_name)
+        if not os.path.exists(profile_dir):
+            os.makedirs(profile_dir)
+        path = os.path.join(profile_dir, name)
         logger.debug("Writing %s" % path)
 
         with open(path, 'w' if type(val) is str else 'wb') as attrFile:
